@@ -370,6 +370,7 @@ func (s *Sorts) prelude() string {
 (declare-fun str_at (Str Int) Int)
 (declare-fun str_cat (Str Str) Str)
 (declare-fun str_lt (Str Str) Bool)
+(declare-fun fnname_of (Int) Str)
 (declare-datatypes ((Slice 0)) (((mk_slice (sbase Int) (soff Int) (slen Int) (scap Int)))))
 (define-fun slice_nil () Slice (mk_slice 0 0 0 0))
 (declare-datatypes ((Iface 0)) (((mk_iface (ityp Int) (ival Int)))))
